@@ -1,4 +1,5 @@
 """The denotation chain lexeme -> Token -> Operator -> OpCode -> VM callee -> primitive (R01.2, R10.1, R06.x)."""
+import re
 from mirlib import *
 from rules import tables, vmx
 from rules.tables import _memo, TYPE
@@ -11,16 +12,32 @@ CHECKED = {'checked_add': '+', 'checked_sub': '-', 'checked_mul': '*', 'checked_
 CMP = {'lt': '<', 'le': '<=', 'gt': '>', 'ge': '>=', 'eq': '==', 'ne': '!='}
 
 
+def _strip_ref_ty(ty):
+    """`&'{erased} object::Object` -> `object::Object` (the comparison traits are implemented for references by delegation)"""
+    ty = ty or ''
+    for _ in range(3):
+        m = re.match(r"^&(?:'[^ ]+ )?(?:mut )?(.*)$", ty)
+        if not m:
+            break
+        ty = m.group(1)
+    return ty
+
+
 def arg_side(v, env):
     """which parameter (1 = self, 2 = rhs) a value derives from, through as_int/as_f64/as_bool/refs"""
     v = deref(env, v)
-    for _ in range(6):
+    for _ in range(8):
         if v[0] == 'call' and v[1].startswith('object::Object::as_'):
             v = deref(env, v[2][0])
             continue
         if v[0] == 'cast':
             v = v[1]
             continue
+        if v[0] == 'ref' and v[1] not in ('_1', '_1.*', '_2', '_2.*'):
+            v2 = deref(env, v)
+            if v2 != v:
+                v = v2
+                continue
         break
     if v == ('local', 1) or v == ('deref', ('local', 1)):
         return 1
@@ -60,6 +77,80 @@ def find_prims(v, env, out, depth=0):
         elif isinstance(x, (list,)):
             for y in x:
                 find_prims(y, env, out, depth + 1)
+
+
+def _ordering_outcome(pth, c):
+    """the outcomes (None / Less / Equal / Greater) of the partial_cmp call c that this path allows, read from the variant tests the
+    path made on the call's result and on the Ordering inside it"""
+    ALLO = ['Less', 'Equal', 'Greater']
+    opt = None       # 'Some' / 'None' / None (untested)
+    ords = set(ALLO)
+    tested = False
+    for k in pth.constraints:
+        if k[0][0] != 'variant' or len(k[0]) < 4:
+            continue
+        v = k[0][3]
+        if not isinstance(v, tuple):
+            continue
+        vs = str(v)
+        if c[1] not in vs:
+            continue
+        lab = str(k[1])
+        allowed = set(lab[10:].split('|')) if lab.startswith('otherwise:') else {lab}
+        if 'Option' in str(k[0][2]):
+            tested = True
+            if allowed == {'Some'}:
+                opt = 'Some'
+            elif allowed == {'None'}:
+                opt = 'None'
+        elif 'Ordering' in str(k[0][2]):
+            tested = True
+            ords &= allowed
+    if not tested:
+        return None
+    if opt == 'None':
+        return {'None'}
+    if opt == 'Some':
+        return set(ords)
+    return set(ords) | {'None'}
+
+
+def _bool_answer(val, env):
+    """True / False when the value handed to Object::bool on this path is a constant, else None"""
+    v = val
+    for _ in range(4):
+        if isinstance(v, tuple) and v and v[0] == 'call' and v[1] == 'object::Object::bool' and v[2]:
+            v = deref(env, v[2][0])
+            continue
+        break
+    if isinstance(v, tuple) and v and v[0] == 'int' and len(v) > 2 and v[2] == 'bool':
+        return bool(v[1])
+    return None
+
+
+def _negated(val, env, c):
+    """False: the value handed to Object::bool is the trait call's own answer; True: its negation (`!x`, `x == false`, `x != true`);
+    None: something else"""
+    v = val
+    for _ in range(4):
+        if isinstance(v, tuple) and v and v[0] == 'call' and v[1] == 'object::Object::bool' and v[2]:
+            v = deref(env, v[2][0])
+            continue
+        break
+    def is_call(x):
+        x = deref(env, x)
+        return isinstance(x, tuple) and x and x[0] == 'call' and x[1] == c[1]
+    if is_call(v):
+        return False
+    if isinstance(v, tuple) and v and v[0] == 'unop' and v[1] == 'Not' and is_call(v[2]):
+        return True
+    if isinstance(v, tuple) and v and v[0] == 'binop' and v[1] in ('Eq', 'Ne'):
+        for x, y in ((v[2], v[3]), (v[3], v[2])):
+            y = deref(env, y)
+            if is_call(x) and isinstance(y, tuple) and y and y[0] == 'int':
+                same = bool(y[1]) == (v[1] == 'Eq')
+                return not same
+    return None
 
 
 def object_method_semantics(ctx):
@@ -106,9 +197,33 @@ def object_method_semantics(ctx):
                         info['float'].add(pr)
                 for c in pth.calls:
                     cal = c[4]['callee'] if isinstance(c[4], dict) and 'callee' in c[4] else {}
-                    if cal.get('trait') in ('core::cmp::PartialOrd', 'core::cmp::PartialEq') and cal.get('self_ty') == 'object::Object':
+                    if cal.get('trait') in ('core::cmp::PartialOrd', 'core::cmp::PartialEq') and _strip_ref_ty(cal.get('self_ty')) == 'object::Object':
                         m = c[1].split('::')[-1]
-                        info['cmp'].add((CMP.get(m, m), arg_side(c[2][0], pth.env), arg_side(c[2][1], pth.env)))
+                        sides = (arg_side(c[2][0], pth.env), arg_side(c[2][1], pth.env))
+                        if m == 'partial_cmp':
+                            # `matches!(a.partial_cmp(&b), Some(Less))` and friends: the answer is a constant per path; which
+                            # outcomes of the comparison (None / Less / Equal / Greater) give `ja` is collected over all paths
+                            out_ = _ordering_outcome(pth, c)
+                            bv = _bool_answer(val, pth.env)
+                            if out_ is not None and bv is not None:
+                                for o_ in out_:
+                                    info.setdefault('ordtable', {}).setdefault(sides, {}).setdefault(o_, set()).add(bv)
+                                continue
+                        if m in ('eq', 'ne'):
+                            # `eq(a, b) == false`, `!eq(a, b)`: the negation of the trait's answer is the other operator
+                            neg = _negated(val, pth.env, c)
+                            if neg is True:
+                                m = 'ne' if m == 'eq' else 'eq'
+                            elif neg is None:
+                                m = m + '?'
+                        info['cmp'].add((CMP.get(m, m), sides[0], sides[1]))
+            for sides, tab in (info.get('ordtable') or {}).items():
+                yes = {o_ for o_, bs in tab.items() if bs == {True}}
+                mixed = {o_ for o_, bs in tab.items() if len(bs) > 1}
+                opx = {frozenset({'Less'}): '<', frozenset({'Less', 'Equal'}): '<=', frozenset({'Greater'}): '>', frozenset({'Greater', 'Equal'}): '>='}.get(frozenset(yes))
+                if mixed or opx is None or set(tab) != {'None', 'Less', 'Equal', 'Greater'}:
+                    opx = 'partial_cmp?%s' % sorted(yes)
+                info['cmp'].add((opx, sides[0], sides[1]))
             out[name] = info
         # logical: truth tables
         for name in list(out):
